@@ -78,6 +78,23 @@ func main() {
 					return "recv"
 				}
 			}
+			// a store into a map or slice element (e.g. placing a step's output into the data model)
+			if st.Tok == token.ASSIGN {
+				for _, l := range st.Lhs {
+					if _, ok := l.(*ast.IndexExpr); ok {
+						return "store"
+					}
+				}
+			}
+		case *ast.IfStmt:
+			// if err := node.ResolveNode(...); err != nil { ... }: a mutation of the dependency graph
+			if as, ok := st.Init.(*ast.AssignStmt); ok && len(as.Rhs) == 1 {
+				if call, ok := as.Rhs[0].(*ast.CallExpr); ok {
+					if sel, ok := call.Fun.(*ast.SelectorExpr); ok && sel.Sel.Name == "ResolveNode" {
+						return "resolve"
+					}
+				}
+			}
 		}
 		return ""
 	}
